@@ -73,7 +73,7 @@ def run_case(cs):
     patterns = rng.sample(PATS, rng.choice([0, 0, 1, 2]))
     pat_at = rng.randint(1, 2)
     gens = rng.randint(1, 5)
-    if nested and child_first and rng.random() < 0.25:
+    if nested and child_first and rng.random() < 0.35:
         gens = 0  # only the nested histories exist; the enclosing folder is sealed for the first time after the mutation
     steps = []
 
@@ -122,6 +122,13 @@ def run_case(cs):
     rec_dirs = sorted(k for k, v in ondisk.items() if v is None and ignored(k) is False)
     # after the last generation a recorded file may exist that was added after the last seal? no: growth happens before a seal
     kinds = rng.sample(["altered", "removed", "added", "benign", "benign"], rng.choice([0, 1, 1, 1, 2, 3]))
+    if gens == 0:
+        # only faults inside the nested histories count here: make sure there is one
+        inside0 = [f for f in rec_files if any(f.startswith(n + "/") for n in nested)]
+        if inside0:
+            rec_files = inside0
+            rec_dirs = [x for x in rec_dirs if any(x.startswith(n + "/") for n in nested)]
+            kinds = [rng.choice(["removed", "altered"])] + [k for k in kinds if k == "benign"]
     affected = {"altered": [], "removed": [], "added": []}
     muts = []
     for k in kinds:
